@@ -240,7 +240,7 @@ pub fn targeted_inputs() -> Vec<(String, &'static str)> {
         "99999999999999999999999999", "1.0", "1e2", "+1", "0x10", " 1 2", "1_000", "9007199254740993", "-9223372036854775809", "18446744073709551615", "10000000000000000000",
         "340282366920938463463374607431768211455", "-340282366920938463463374607431768211456", "179769313486231570000000000000000000000000000000000000000000000000000000000000000000000000000000000000000000000000000000000000000000000000000000000000000000000000000000000000000000000000000000000000000000000000000000000000000000000000000000000000000000000000000000000000000000000000000000000000000000000000000000000000000000000000"];
     // (in the literal frames the forms `1.0`, `1e2`, `-0` are valid numbers: `must_reject` skips what the recogniser accepts)
-    let int_frames = ["$[?@.a=={}]", "$[?{}<@.a]", "$[?@.a!={} && @.b]", "$[?length(@.a)<{}]", "$[?count(@.*)=={}]", "$[?$.a>={}]", "$[?@[?@.a<={}]]", "$[?value(@.a)=={}]","$[{}]", "$[{}:]", "$[:{}]", "$[::{}]", "$[1:{}:2]", "$..[{}]", "$[0,{}]", "$[?@[{}]==1]", "$[?$[{}]==1]", "$[?@.a[{}].b==1]", "$[?count(@[{}])==1]", "$[?@[?@[{}]]]"];
+    let int_frames = ["$[?@.a=={}]", "$[?{}<@.a]", "$[?@.a!={} && @.b]", "$[?length(@.a)<{}]", "$[?count(@.*)=={}]", "$[?$.a>={}]", "$[?@[?@.a<={}]]", "$[?value(@.a)=={}]","$[{}]", "$[{}:]", "$[:{}]", "$[::{}]", "$[1:{}:2]", "$..[{}]", "$[0,{}]", "$[?@[{}]==1]", "$[?$[{}]==1]", "$[?@.a[{}].b==1]", "$[?count(@[{}])==1]", "$[?@[?@[{}]]]", "$[?1 == 0 && @[{}] == 1]", "$[?1 == 1 || @.a == {}]", "$[?@.a[{}] && 1 == 0]"];
     for f in int_frames {
         for i in ints {
             out.push((f.replace("{}", i), "targeted:integer-form"));
@@ -250,7 +250,7 @@ pub fn targeted_inputs() -> Vec<(String, &'static str)> {
     let blank_frames = [
         "{}$", "$.a{}", "$.{}a", "$..{}a", "$.a{}b", "$..{}*", "$.{}*", "$[?length{}(@)==1]", "$[?@.a={}=1]", "$[?@.a &{}& @.b]", "$[?@.a |{}| @.b]", "$[?@.a<{}=1]", "$[?@.{}a==1]",
         "$[?@.a==1{}0]", "$[?@.a==1.{}5]", "$[?@.a==1e{}2]", "$[?@.a==tr{}ue]", "$[1{}0]", "$[-{}1]", "$[?@.a==-{}1]", "$[?co{}unt(@.*)==1]", "$.{}.a", "${}", "$[?@.a==nu{}ll]",
-        "$[?@.a!{}=1]", "$[?@.a>{}=1]",
+        "$[?@.a!{}=1]", "$[?@.a>{}=1]", "$[?1 == 0 && @.{}a]", "$[?1 == 1 || length{}(@.a) == 1]", "$[?true == false && @..{}a]",
     ];
     for f in blank_frames {
         for b in blanks {
@@ -279,7 +279,9 @@ pub fn targeted_inputs() -> Vec<(String, &'static str)> {
     // (some of the list are valid on purpose: `must_reject` skips what the recogniser accepts, so the
     // frame is exercised from both sides and mistakes in the list cannot raise an alarm)
     for f in filters {
-        for frame in ["$[?{}]", "$[?({})]", "$.a[?{}].b", "$[?@.x && {}]", "$[?@[?{}]]"] {
+        // (the last six: behind or in front of a comparison of two literals that decides the chain on its own -
+        // the switch a query builder emits; what stands beside it must still be a valid operand)
+        for frame in ["$[?{}]", "$[?({})]", "$.a[?{}].b", "$[?@.x && {}]", "$[?@[?{}]]", "$[?1 == 0 && {}]", "$[?1 == 1 || {}]", "$[?'a' != 'a' && ({})]", "$[?null == null || {} || @.b]", "$[?{} && 1 == 0]", "$[?{} || true == true]"] {
             out.push((frame.replace("{}", f), "targeted:filter-form"));
         }
     }
